@@ -102,6 +102,12 @@ def _wide(args):
             vals = [abs(v) for v in vals]
         out.append(obs_infer(fx, np, [pid], vals, sa, 'none', NONE, NONE, NONE, 64, carrier='scalar' if len(vals) == 1 else 'list',
                              extra={'capcase': True}))
+        # arrays with a wide dynamic range: long fractions next to large integer parts (the capped format must keep the integer parts)
+        wide = [F(rng.uniform(-8, 8)), F(rng.choice([-1, 1]) * rng.uniform(1, 2) * 2 ** rng.randint(8, 44))] + ([F(rng.uniform(0, 1) * 2 ** -rng.randint(1, 20))] if rng.random() < 0.5 else [])
+        if sa == 'F':
+            wide = [abs(v) for v in wide]
+        rng.shuffle(wide)
+        out.append(obs_infer(fx, np, [pid], wide, sa, 'none', NONE, NONE, NONE, 64, carrier='list', extra={'capcase': True}))
     return out
 
 
